@@ -105,7 +105,9 @@ class ScriptedCoupling:
             f, c = float(s), float(coarse_of(s))
         else:
             f = fine_value(s)
-            c = f - VALUED[0]["c0"] * 2.0 ** (-self.level) * (1.0 + VALUED[0]["jit"] * (((s * 13) % 3) - 1))
+            # "dip": one level whose correction is almost nil (the engine's work-around for near-zero level means)
+            scale = 1e-6 if VALUED[0].get("dip") == self.level else 1.0
+            c = f - scale * VALUED[0]["c0"] * 2.0 ** (-self.level) * (1.0 + VALUED[0]["jit"] * (((s * 13) % 3) - 1))
         jumps = np.array([[0.0, f], [0.0, c]])
         return StochasticJumpPath(times, np.zeros((2, 2)), jumps)
 
